@@ -147,14 +147,21 @@ var c01Clients4 = [][]byte{
 	{}, {7}, {1, 2, 3, 4, 5, 6, 7, 8, 9, 10, 11, 12, 13, 14, 15, 16},
 }
 
-func genDgram4(c *Ctx) ([]byte, string) {
+func genDgram4(c *Ctx) ([]byte, string) { return genDgram4x(c, nil, true) }
+
+// genDgram4x: with relay set, a datagram relayed by that agent (the start-mode harness holds its
+// port 67); mut = false leaves the datagram well-formed
+func genDgram4x(c *Ctx, relay net.IP, mut bool) ([]byte, string) {
 	r := c.R
 	s := randReq4(c)
+	if relay != nil {
+		s.giaddr = relay
+	}
 	s.chaddr = c01Clients4[r.Intn(len(c01Clients4))]
 	s.extra = map[uint8][]byte{}
 	mts := [][]byte{{1}, {3}, {1}, {3}, {4}, {7}, {8}, {2}, {5}, {0}, {200}, nil, {}, {1, 1}}
 	s.mtype = mts[r.Intn(len(mts))]
-	if r.Pct(5) {
+	if r.Pct(5) && mut {
 		s.op = byte(r.Intn(4))
 	}
 	prls := [][]byte{nil, {}, {1, 3, 6}, {6, 26, 15, 119, 121}, {108}, {66, 67}, {1, 3, 6, 15, 26, 66, 67, 108, 119, 121, 116}}
@@ -175,12 +182,17 @@ func genDgram4(c *Ctx) ([]byte, string) {
 	}
 	raw := buildReq4(s)
 	label := fmt.Sprintf("v4 mt=%x chaddr=%x", s.mtype, s.chaddr)
+	if !mut {
+		return raw, label
+	}
 	return mutate(c, raw, 240, 1, label)
 }
 
 var c01MACs6 = []net.HardwareAddr{{2, 0xaa, 0, 0, 0, 1}, {2, 0xaa, 0, 0, 0, 2}, {2, 6, 0, 0, 0, 1}, {2, 6, 0, 0, 0, 2}, {2, 6, 0, 0, 0, 3}, {2, 6, 0, 0, 0, 4}, {2, 6, 0, 0, 0, 5}, {2, 6, 0, 0, 0, 6}}
 
-func genDgram6(c *Ctx, held *[]net.IPNet) ([]byte, string) {
+func genDgram6(c *Ctx, held *[]net.IPNet) ([]byte, string) { return genDgram6x(c, held, true) }
+
+func genDgram6x(c *Ctx, held *[]net.IPNet, mut bool) ([]byte, string) {
 	r := c.R
 	types := []uint8{1, 1, 1, 3, 3, 5, 6, 4, 8, 9, 11, 2, 7, 10, 12, 13, 0, 200}
 	s := req6spec{mtype: types[r.Intn(len(types))]}
@@ -251,6 +263,9 @@ func genDgram6(c *Ctx, held *[]net.IPNet) ([]byte, string) {
 	optOff := 4
 	if len(s.layers) > 0 {
 		optOff = 34
+	}
+	if !mut {
+		return raw, label
 	}
 	return mutate(c, raw, optOff, 2, label)
 }
@@ -353,6 +368,13 @@ type c01Replay struct {
 func runC01Config(c *Ctx, ci int, spec chainSpec, labels []string, scenario string) chainResult {
 	c.Breadcrumb(map[string]interface{}{"scenario": scenario, "v4": chainNames(spec.Plugins4), "v6": chainNames(spec.Plugins6), "datagrams": len(spec.Dgrams)})
 	res, err := runChainChild(spec, time.Duration(30+len(spec.Dgrams)/4)*time.Second)
+	for try := 0; try < 4 && err == nil && spec.Start && strings.HasPrefix(res.SetupErr, "harness-socket:"); try++ {
+		spec.Port += 17 // another run holds these ports: move on
+		res, err = runChainChild(spec, time.Duration(30+len(spec.Dgrams)/4)*time.Second)
+	}
+	if err == nil && strings.HasPrefix(res.SetupErr, "harness-socket:") {
+		return res
+	}
 	rep := func(at int) c01Replay {
 		sp := spec
 		if at+1 < len(sp.Dgrams) {
@@ -597,7 +619,11 @@ func emitAsmCases(c *Ctx, spec chainSpec, res chainResult) {
 					parsed = "(Some " + vPkt6Canon(d, false) + ")"
 				}
 				peer := net.ParseIP(dg.Peer).To16()
-				hist = append(hist, fmt.Sprintf("(0%%Z, %s, %s, 546%%Z, %s)", optZ(dg.Oob), vBytes(peer), parsed))
+				pport := 546
+				if res.Peer6Port != 0 {
+					pport = res.Peer6Port
+				}
+				hist = append(hist, fmt.Sprintf("(0%%Z, %s, %s, %s, %s)", optZ(dg.Oob), vBytes(peer), vZ(int64(pport)), parsed))
 				switch {
 				case o.Panic != "":
 					obs = append(obs, "A6Panic")
@@ -762,6 +788,11 @@ func runC01(c *Ctx) {
 		runC01Config(c, ci, spec, labels, "generated")
 		ci++
 	}
+	// the whole server as cmds/coredhcp starts it: server.Start, two listen addresses per protocol, real sockets
+	startScenarioPD(c)
+	startScenarioRange(c)
+	runStartRandom(c, c.Scale(10, 120))
+	c.Extra["start_mode"] = "server.Start with two listen addresses per protocol on the loopback interface (DHCPv4: relayed datagrams, replies return to the relay's port 67; DHCPv6: replies return to the client socket), scripted prefix / range histories across the listeners and generated configurations with well-formed histories; Close + Wait must return"
 	c.Extra["rule"] = "configurations: any subset, in any order, of the built-in plugins with valid arguments for DHCPv4 (server_id dns router netmask mtu lease_time searchdomains staticroute nbp ipv6only autoconfigure file range sleep) and/or DHCPv6 (server_id dns nbp searchdomains file prefix sleep), each set up once in a fresh process; histories of 4..44 (thorough ..124) raw datagrams from 10 DHCPv4 / 8 DHCPv6 clients (static and dynamic; hardware addresses of 0, 1, 6, 16 bytes) through HandleMsg4/HandleMsg6 via the capture hook, each in its own goroutine with a 3 s watchdog: all message types, option-request lists, IA_NA, 0..2 IA_PD with 0..3 hints (::/0, length-only, length 0 on the wire = nil prefix, length 200, foreign, and prefixes the server delegated in the first half of the history), relay nesting 0..3; 38% mutated (truncated, 1-4 bits flipped, options permuted, padded to 65535 bytes, noise, 0-4 bytes); scripted histories for nil-prefix hints after a first exchange, an exhausted range, nbp with/without params against every option-request list, and the dual-stack file configuration. non-trivial = distinct configuration+history with >= 3 datagrams and >= 1 reply"
 }
 
